@@ -145,11 +145,17 @@ def make_value(kind, k):
         return ExcStr()
     if kind == "none":
         return None
+    if kind in ONE_SPECIAL:
+        # a value whose only special character is one of the five (an escaper that special-cases
+        # "nothing to escape" must still treat each of them alone)
+        c = ONE_SPECIAL[kind]
+        return "%sK%d%s" % (c, k, c)
     raise AssertionError(kind)
 
 
+ONE_SPECIAL = {"only-apos": "'", "only-quot": '"', "only-lt": "<", "only-gt": ">", "only-amp": "&"}
 VALUE_KINDS = ["str", "bytes", "obj", "strsub", "bytessub", "list", "bytearray",
-               "intsub", "badbytes", "excstr", "none"]
+               "intsub", "badbytes", "excstr", "none"] + sorted(ONE_SPECIAL)
 
 
 def make_ns(vals=None, with_funcs=True):
